@@ -57,3 +57,14 @@ Theorem C07_updates_exact : forall ns ex s r s' res,
     (id <> r_id r /\ is_live id (live s) = true /\ zone_of id (live s') = z /\ zone_of id (live s') <> zone_of id (live s)).
 Proof. exact (fun ns ex => allocate_updates ns ex src_fixes). Qed.
 Print Assumptions C07_updates_exact.
+
+(* Realloc never removes nodes from the allocation (the returned zone, which is the new
+   assignment, contains the old one), keeps the set of allocations, and every other allocation
+   ends in a superset of its previous zone *)
+Theorem C07_realloc_never_removes : forall ns ex s id nodes types s' res, Inv s ->
+  realloc ns ex src_fixes s id nodes types = (s', res) -> rs_kind res = KOk ->
+  is_live id (live s) = true /\ msub (zone_of id (live s)) (rs_zone res) = true /\
+  rs_zone res = zone_of id (live s') /\ map r_id (live s') = map r_id (live s) /\
+  (forall q, In q (live s) -> msub (r_zone q) (zone_of (r_id q) (live s')) = true).
+Proof. exact main_realloc_ok. Qed.
+Print Assumptions C07_realloc_never_removes.
